@@ -4,6 +4,7 @@ from contracts import formulas as F
 
 from contracts import wrappers as W
 from contracts import fasta as FA
+from contracts import core as K
 ID = "C16"
 LEVEL = "other"
 TRUSTED = ["A1 real arithmetic", "A6 solvers",
@@ -18,7 +19,7 @@ EXPLANATION = ("Deductive: mix_values, D2O_sld, D2O_match and fasta.D2Omatch are
 
 
 def units(tier):
-    return ([N.U_MIX_VALUES, N.U_D2O_SLD, N.U_D2O_MATCH, N.L_SUBSTITUTION_LINEAR, N.U_FASTA_MATCH, N.U_FASTA_D2OSLD, F.U_SUBSTITUTION] + N.U_D2O_SLDS) + FA.U_MOLECULE_INIT + W.U_FORMULA_REPLACE
+    return (([N.U_MIX_VALUES, N.U_D2O_SLD, N.U_D2O_MATCH, N.L_SUBSTITUTION_LINEAR, N.U_FASTA_MATCH, N.U_FASTA_D2OSLD, F.U_SUBSTITUTION] + N.U_D2O_SLDS) + FA.U_MOLECULE_INIT + W.U_FORMULA_REPLACE) + [K.L_ATOM_IDENTITY]
 
 
 def runner_tasks(tier):
